@@ -90,3 +90,40 @@ def _plan_stream(plan):
         return W.Workload(plan['workload']).stream
     except W.Skip:
         return None
+
+
+@classifier('f2_stray_eoo_after_definite_explicit_tag')
+def f2_stray_eoo(mod, plan, viol):
+    """F2: in indefinite-length mode (and CER) the encoder writes a *definite*
+    header for an explicitly tagged BOOLEAN/INTEGER/ENUMERATED/NULL/OID/REAL and
+    still appends an end-of-octets marker.  Keyed by the input shape; every
+    downstream symptom is attributed to it only when the shape is present in the
+    generated type, the mode is indefinite, and the same plan is clean in
+    definite mode."""
+    from simkit import universe as U
+    w = plan['workload']
+    codec = w['codec']
+    if not ('indef' in codec or codec == 'cer'):
+        return False
+    if not U.has_exp_tagged_nonstring_prim(w['desc']):
+        return False
+    if not _stray_eoo_present(plan):
+        return False
+    p2 = copy.deepcopy(plan)
+    p2['workload']['codec'] = 'ber'
+    p2['workload']['decoder'] = 'ber'
+    if 'config' in p2 and 'threshold' in p2['config']:
+        p2['config']['threshold'] = 10 ** 9      # keep F6 out of the comparison
+    res = mod.execute(p2)
+    return res['status'] != 'violation'
+
+
+def _stray_eoo_present(plan):
+    """The symptom on the wire, by the independent scanner: at least one encoding
+    of the workload is not exactly one well-framed TLV."""
+    from simkit import world as W
+    try:
+        wl = W.Workload(plan['workload'])
+    except W.Skip:
+        return False
+    return any(not tlv.well_framed(e) for e in wl.encodings)
